@@ -23,6 +23,10 @@ What a solver can reach here is small and only this is claimed:
     must be requested between the given refs, and path filters must be
     prefixed by the sub-directory components.
 
+(3) ref-vs-path kernel.  is_gitref over real temp files / directories and a
+    stubbed ref validity: whatever exists on disk is a path, the null file is
+    never a ref; resolve_diff_args routes a single argument accordingly.
+
 Outside the claim, explicitly: that GitPython / git report the right set of
 changed files for any history, renames across file types, ref-vs-path
 disambiguation against a real repository.  Non-trivial = at least one pair
@@ -51,7 +55,8 @@ def main():
                     "git filters (apply_possible_filter is stubbed to 'no filter')"]
     chk.stubs += ["nbdime.utils.os -> FakeOS (cwd model over tokens)", "nbdime.gitfiles.Repo -> stand-in for git.Repo (only one directory is a repository; the real get_repo walks up to it)",
                   "nbdime.gitfiles.apply_possible_filter -> identity", "nbdime.gitfiles.io -> in-memory files"]
-    chk.require_goals(["pushd-body-raises", "pairs-yielded", "non-notebook-skipped", "working-tree", "identical-blobs"])
+    chk.require_goals(["pushd-body-raises", "pairs-yielded", "non-notebook-skipped", "working-tree", "identical-blobs",
+                       "existing-directory-that-is-also-a-ref"])
     return chk.finish()
 
 
